@@ -52,6 +52,8 @@ func TestVerifDump(t *testing.T) {
 		"maskToAccess":        maskToAccess,
 		"newLogMapKeys":       logKeys,
 		"newLogMountMapKeys":  mountKeys,
+		"regexpSubexp":        map[string]int{"regVariableReference": regVariableReference.NumSubexp()},
+		"regexpPatterns":      map[string]string{"regVariableReference": regVariableReference.String()},
 	}
 	b, err := json.Marshal(out)
 	if err != nil {
